@@ -148,7 +148,12 @@ class ActGen:
             if o in ("on", "off", "toggle"):
                 self.emit(f"{name}.{o}()")
             elif o == "set":
-                self.emit(f"{name}.set_brightness({self.arg(self.byte())})")
+                if ok and r.random() < 0.15:
+                    # a fraction for a whole-number parameter: both worlds drop the fraction (no rounding up), literal or not
+                    self.features.add("led.set:fractional-value")
+                    self.emit(f"{name}.set_brightness({self.arg(r.choice([127.6, 0.9, 254.5, 1.5, 99.99, 200.75]))})")
+                else:
+                    self.emit(f"{name}.set_brightness({self.arg(self.byte())})")
             elif o == "blink":
                 d = r.choice([0, 1, 5, 20]) if ok else r.choice([5, 0])
                 t = r.choice([1, 2, 3]) if ok else r.choice([-1, 0, 2])
@@ -271,7 +276,8 @@ class ActGen:
             o = r.choice(["set_speed", "set_speed", "backward", "stop", "coast", "invert", "ramp", "run_for"])
             self.features.add("motor." + o)
             if ok:
-                grid = [0.0, 0.25, -0.25, 0.5, -0.5, 1.0, -1.0, 0.75, 0.1, -0.9, 1, 0, round(r.uniform(-1, 1), 2)]
+                # (0.002 .. 0.0039: the smallest speeds that still give one PWM count, 1/510 <= |v| < 1/255)
+                grid = [0.0, 0.25, -0.25, 0.5, -0.5, 1.0, -1.0, 0.75, 0.1, -0.9, 1, 0, round(r.uniform(-1, 1), 2), 0.003, -0.0025, 0.0039, 0.002]
                 if "dc-tiny-speed" in self.hazards:
                     grid += [0.001, -0.0015]
             else:
